@@ -1,10 +1,12 @@
+//! (in-crate module appended to a verbatim copy of crates/searcher/src)
 //! Bounded twin of the searcher (C01/C02/C03/C14/C16): the REAL grep-searcher crate (path dependency on
 //! /repo/crates/searcher; only memchr and bstr are replaced by plain-loop shims) driven through its public
 //! API with a tiny matcher ("a line matches iff it contains the byte K") and a recording sink that may
 //! refuse at a chosen event.  Everything recorded is compared with the grep model computed directly.
 #![allow(dead_code)]
 use grep_matcher::{Match, Matcher, NoCaptures, NoError};
-use grep_searcher::{Searcher, SearcherBuilder, Sink, SinkContext, SinkContextKind, SinkFinish, SinkMatch};
+use crate::{Searcher, SearcherBuilder, Sink, SinkContext, SinkContextKind, SinkFinish, SinkMatch};
+use crate::searcher::glue_twin_access::{slice_by_line_run};
 
 pub struct ByteMatcher(pub u8);
 impl Matcher for ByteMatcher {
@@ -120,7 +122,9 @@ pub fn run_slice(input: &[u8], k: u8, invert: bool, after: usize, before: usize,
     let mut searcher = SearcherBuilder::new().line_number(true).invert_match(invert)
         .after_context(after).before_context(before).build();
     let mut rec = Rec::new(input, refuse_at);
-    let r = searcher.search_slice(ByteMatcher(k), input, &mut rec);
+    // straight into the line-oriented slice strategy (SliceByLine::new(..).run()), bypassing the
+    // transcoding decision of Searcher::search_slice (encoding_rs exhausts CBMC's memory)
+    let r = slice_by_line_run(&searcher, ByteMatcher(k), input, &mut rec);
     r.is_ok() && model_ok(input, k, invert, &rec, refuse_at >= MAXEV)
 }
 
@@ -140,24 +144,30 @@ mod proofs {
     }
 }
 
-#[cfg(test)]
-mod tests {
-    use super::*;
-    #[test]
-    fn smoke() {
-        assert!(run_slice(b"ax\nb\nxx", b'x', false, 0, 0, MAXEV));
-        assert!(run_slice(b"ax\nb\nxx", b'x', true, 1, 1, MAXEV));
-        assert!(run_slice(b"ax\nb\nxx\n", b'x', false, 1, 0, 1));
+/// native re-execution of a recorded counterexample (bin twin_replay, feature "twin")
+pub fn replay_main() -> i32 {
+    let hex = std::env::var("VERIF_REPLAY_HEX").unwrap_or_default();
+    let bytes: Vec<u8> = (0..hex.len() / 2).map(|i| u8::from_str_radix(&hex[2 * i..2 * i + 2], 16).unwrap()).collect();
+    let inv = std::env::var("VERIF_REPLAY_INVERT").map(|v| v != "0").unwrap_or(false);
+    let r: usize = std::env::var("VERIF_REPLAY_REFUSE").ok().and_then(|v| v.parse().ok()).unwrap_or(MAXEV);
+    let ctx: usize = std::env::var("VERIF_REPLAY_CTX").ok().and_then(|v| v.parse().ok()).unwrap_or(0);
+    if run_slice(&bytes, b'x', inv, ctx, ctx, r) {
+        println!("replay: the grep model holds for {:?} (invert={}, context={}, refusal at event {})", bytes, inv, ctx, r);
+        0
+    } else {
+        println!("replay: searching {:?} (invert={}, context={}, refusal at event {}) VIOLATES the grep model", bytes, inv, ctx, r);
+        1
     }
-    #[test]
-    fn exhaustive_small() {
-        // native exhaustive cross-check over a small alphabet (debugging aid for the harness author)
-        let alpha = [b'x', b'\n', b'a'];
-        for a in alpha { for b in alpha { for c in alpha { for d in alpha {
-            let t = [a, b, c, d];
-            for n in 0..=4 { for inv in [false, true] { for ctx in 0..2usize { for r in [0usize, 1, 2, MAXEV] {
-                assert!(run_slice(&t[..n], b'x', inv, ctx, ctx, r), "{:?} n={} inv={} ctx={} r={}", &t[..n], n, inv, ctx, r);
-            }}}}
+}
+
+/// native exhaustive cross-check over a small alphabet (debugging aid for the harness author, not a check)
+pub fn exhaustive_small() -> bool {
+    let alpha = [b'x', b'\n', b'a'];
+    for a in alpha { for b in alpha { for c in alpha { for d in alpha {
+        let t = [a, b, c, d];
+        for n in 0..=4 { for inv in [false, true] { for ctx in 0..2usize { for r in [0usize, 1, 2, MAXEV] {
+            if !run_slice(&t[..n], b'x', inv, ctx, ctx, r) { println!("{:?} n={} inv={} ctx={} r={}", &t[..n], n, inv, ctx, r); return false; }
         }}}}
-    }
+    }}}}
+    true
 }
